@@ -1,6 +1,8 @@
 import PqModel.DeltaProofs
 import PqModel.DeltaGoProofs
 import PqModel.DeltaKernel
+import PqModel.DeltaUnpack
+import PqModel.DeltaAmd64
 
 /-! # C04 (part DELTA) — DELTA_BINARY_PACKED, DELTA_LENGTH_BYTE_ARRAY and DELTA_BYTE_ARRAY are
 lossless and conform to the format, for every input.
@@ -215,5 +217,62 @@ theorem delta32_roundtrip_wordlevel (xs : List (BitVec 32)) :
 theorem delta64_roundtrip_wordlevel (xs : List (BitVec 64)) :
     specDecode64 (mirrorEncodeK xs) = .ok (xs, []) := by
   rw [mirrorEncodeK64_eq]; exact delta64_roundtrip xs
+
+/-! ## The unpacking kernels the decoders call: `bitpack.Unpack` (portable) = LSB-first unpacking -/
+
+/-- `bitpack.Unpack` for int64 (portable `unpackInt64`, github.com/parquet-go/bitpack
+unpack_int64_purego.go:5-27, transliterated in PqModel/DeltaUnpack.lean: 32-bit words, a value
+assembled from up to three of them) returns what `Bits.unpackBits` — the function the decoder
+mirror `goMinis` and the spec decoder are written with — returns, for every width up to 64, any
+number of values that fit the buffer, any buffer content. -/
+theorem unpack64_kernel (w n : Nat) (p : List Nat) (hw : w ≤ 64) (hb : ∀ b ∈ p, b < 256)
+    (hn : n * w ≤ 8 * p.length) : goUnpackInt64 w n p = PqModel.Bits.unpackBits w n (PqModel.Bits.bytesToBits p) :=
+  goUnpackInt64_eq w n p hw hb hn
+
+/-- INT32 twin: the kernel is shared with the RLE decoder and proved in the RLE slice
+(`PqModel.Rle.goUnpackInt32_eq`); restated here because `decodeInt32` depends on it. -/
+theorem unpack32_kernel (w n : Nat) (p : List Nat) (hw : w ≤ 32) (hb : ∀ b ∈ p, b < 256)
+    (hn : n * w ≤ 8 * p.length) :
+    PqModel.Rle.goUnpackInt32 w n p = PqModel.Bits.unpackBits w n (PqModel.Bits.bytesToBits p) :=
+  PqModel.Rle.goUnpackInt32_eq w n p hw hb hn
+
+example : (61 : Nat) ≤ 64 ∧ (∀ b ∈ List.replicate 16 0xA7, b < 256) ∧ 2 * 61 ≤ 8 * (List.replicate 16 0xA7).length := by
+  decide
+
+/-- The hypothesis `n * w ≤ 8 * p.length` holds for every call the decoders make: a miniblock of
+`vpm` values (a multiple of 8, since it is a multiple of 32) at width `w` is given `vpm * w / 8`
+bytes (completed with zeros when the input is shorter) and `cnt ≤ vpm` values are read. -/
+theorem unpack_call_fits (vpm w cnt : Nat) (data : List Nat) (h8 : vpm % 8 = 0) (hc : cnt ≤ vpm)
+    (hl : data.length = vpm * w / 8) : cnt * w ≤ 8 * data.length :=
+  mini_fits vpm w cnt data h8 hc hl
+
+example : (32 : Nat) % 8 = 0 ∧ 7 ≤ 32 ∧ (List.replicate 12 0).length = 32 * 3 / 8 := by decide
+
+/-! ## The amd64 Go wrapper of the DELTA_BYTE_ARRAY decoder (what the default build runs) -/
+
+/-- `decodeByteArray` of byte_array_amd64.go (split scan from the end of the suffix lengths, AVX2
+kernel on the first `k` values — replaced by its contract —, reconstruction of the read position
+`j = len(src) - n` and of the previous value `dst[i-(prefix[k-1]+suffix[k-1]):]`, scalar loop on
+the rest; transliterated in PqModel/DeltaAmd64.lean) returns the values of the portable loop
+(`goJoin`, the one `goDecodeDBA_eq_spec` and `conformant_dba_go` are about) whenever that loop
+accepts the lengths and the suffix bytes end where `src` ends, as they do in a data page. -/
+theorem dba_amd64_wrapper_eq_portable (src : List Nat) (ps ss : List (BitVec 32)) (vs : List (List Nat))
+    (hl : ps.length = ss.length) (h : goJoin [] ps ss src = .ok vs)
+    (hend : (ss.map BitVec.toNat).sum = src.length) :
+    amd64Vals src (ps.map BitVec.toNat) (ss.map BitVec.toNat) = vs :=
+  amd64Vals_of_goJoin src ps ss vs hl h hend
+
+example : goJoin [] [0#32, 1#32] [2#32, 1#32] [0xab, 0xcd, 0xef] = .ok [[0xab, 0xcd], [0xab, 0xef]] ∧
+    (([2#32, 1#32] : List (BitVec 32)).map BitVec.toNat).sum = [0xab, 0xcd, 0xef].length := by decide
+
+/-- The hypothesis on the end of `src` is needed — with bytes after the suffixes the amd64 wrapper
+reads the values left to its scalar loop from the wrong place (observation
+`maldba-trailing-bytes-change-values`): 70 one-byte values `00 01 02 …` followed by one stray byte;
+the portable loop returns the 70 bytes, the wrapper shifts the last 64 by one. -/
+theorem dba_amd64_wrapper_needs_exact_end :
+    ∃ (src ps ss : List Nat), validLens 0 ps ss ∧ ps.length = ss.length ∧ ss.sum < src.length ∧
+      amd64Vals src ps ss ≠ loopVals src [] 0 ps ss :=
+  ⟨List.range 71, List.replicate 70 0, List.replicate 70 1, by decide +kernel, by decide +kernel,
+    by decide +kernel, by decide +kernel⟩
 
 end PqModel.Props.C04Delta
